@@ -28,6 +28,7 @@ MainClauses(pre, ctx, s) ==
     StepClausesC(pre, ctx, s.c, OutM(s.out), s.post)
     \cup (IF s.out = "ok" THEN StateClauses(s.post) ELSE {})
     \cup (IF "rep" \notin DOMAIN s \/ (s.rep.ok /\ Obs(s.rep.snap) = Obs(s.post)) THEN {} ELSE {"log_replay_differs"})
+    \cup (IF "rep" \notin DOMAIN s \/ "v" \notin DOMAIN s \/ ~s.rep.ok \/ s.rep.v.trials = s.v.trials THEN {} ELSE {"log_replay_differs"})
     \cup (IF "rt" \notin DOMAIN s \/ (s.rt.ok /\ ObsRT(s.rt.snap) = ObsRT(s.post)) THEN {} ELSE {"card_round_trip_differs"})
 
 DriftClauses(pre, s) ==
@@ -35,6 +36,9 @@ DriftClauses(pre, s) ==
     (IF r[1] = OutM(s.out) THEN {} ELSE {"model_outcome"})
     \cup (IF r[2] = s.post THEN {} ELSE {"model_post_state"})
     \cup (IF FromActions(EmptyHJ, s.post.log) = s.post THEN {} ELSE {"model_log_replay"})
+    \* the derived views of the real object are those of the model (trials, remaining, eliminated, is_finished, is_running)
+    \cup (IF "v" \notin DOMAIN s \/ s.v = Views(s.post) THEN {} ELSE {"model_views"})
+    \cup (IF TrialsSpellCards(s.post) THEN {} ELSE {"model_trials_vs_cards"})
 
 CheckStep(t, i) ==
     LET s == Steps(t)[i]
